@@ -35,7 +35,16 @@ func skipLeavesIDZero(e *Env, rule string) {
 		n++
 		q := &core.PathQuery{Fn: f, From: st, Target: func(x ssa.Instruction) bool {
 			ret, isRet := x.(*ssa.Return)
-			return isRet && len(ret.Results) == 2 && core.IsNilConst(core.RetVal(ret, 1))
+			if !isRet || len(ret.Results) != 2 || !core.IsNilConst(core.RetVal(ret, 1)) {
+				return false
+			}
+			// `return proc, nil` after UnmarshalValue succeeded is the parsed option, not a skip
+			if ex, isEx := core.Resolve(core.RetVal(ret, 0)).(*ssa.Extract); isEx && ex.Index == 0 {
+				if c, isC := ex.Tuple.(*ssa.Call); isC && strings.HasSuffix(core.CalleeName(c), "Option.UnmarshalValue") {
+					return false
+				}
+			}
+			return true
 		}}
 		if w := q.Find(); w != nil {
 			bad = "after the option number was stored a skip return (value consumed, error nil) is still reachable: an option with an illegal length or unknown format is kept as an empty option instead of being dropped: " + e.trace(w)
